@@ -1,7 +1,7 @@
 """Task and enum types for the parameter-tree checks (C07, C09, C15).  Importable by fresh
 interpreters and by the deserialiser (`__import__(module)`); `ptasks2` defines same-named classes."""
 import json
-from enum import Enum, IntEnum, StrEnum
+from enum import Enum, IntEnum, StrEnum, Flag, IntFlag
 from typing import Any
 
 import labtech
@@ -47,6 +47,17 @@ class Split(str, Enum):
 class Variant(Enum):
     SMALL = 1
     LARGE = 2
+
+
+class Perm(Flag):
+    R = 1
+    W = 2
+    X = 4
+
+
+class Bits(IntFlag):
+    A = 1
+    B = 2
 
 
 class ModelA:
